@@ -286,3 +286,10 @@ ASSUMPTIONS = [
     "RESOLVED is what DataTypeBuilder.resolve_versioned_data_type's filter selects; that this is exactly the referenced "
     "definition is the C09 contract (ledger/C09.json)",
 ]
+
+
+# effect obligations (AST, complete for what they state): no argument-keyed cache decorator, no module-level state - see
+# specs/common.py (the outcome of reading a text depends on the text and its dependencies, not on earlier reads)
+from .common import no_hidden_state_check as _no_hidden_state_check  # noqa: E402
+EXTRA_CHECKS = list(globals().get("EXTRA_CHECKS", [])) + [_no_hidden_state_check(
+    ["pydsdl._namespace", "pydsdl._namespace_reader", "pydsdl._data_type_builder", "pydsdl._dsdl_definition"], "the reader and the resolver")]
